@@ -415,10 +415,13 @@ class AnsiString:
                     if end != len(self._s):
                         settings_point.add += removed_settings
                 else:
-                    for i in reversed(range(len(settings_point.add))):
-                        if ansi_settings is None or settings_point.add[i] in ansi_settings:
-                            removed_settings.append(settings_point.add[i])
-                            del settings_point.add[i]
+                    kept_settings = []
+                    for s in settings_point.add:
+                        if ansi_settings is None or s in ansi_settings:
+                            removed_settings.append(s)
+                        else:
+                            kept_settings.append(s)
+                    settings_point.add = kept_settings
 
         # Clean up now empty entries
         for idx in list(self._fmts.keys()):
